@@ -7,6 +7,7 @@ CONSTANTS
   Elem = {"e"}
   AsBuilt = {}
   Kinds = {"lww", "hash"}
+  CausalModes = {FALSE}
   MaxSteps = 4
 CONSTRAINT StepBound
 INVARIANTS Commutative Idempotent AssociativeSameKind StampIsJoin ClockDominates
